@@ -220,6 +220,13 @@ def monOp (op : String) (args : List String) : Option String :=
       pure ((d, v), ts)) nq ts
     some (verdict (monClaim until_ cursor lps paid (if hasQ then some q else none)))
   | "mon_claim_rejected" => some "viol C06-claim-blocked"
+  | "mon_d_conv" => do
+    -- <amp> <n> <balances as passed to calculate_d_core…> <D returned>
+    let (amp, ts) ← pNat args
+    let (n, ts) ← pNat ts
+    let (xs, ts) ← pRepeat pNat n ts
+    let (d, _) ← pNat ts
+    some (verdict (monDepositD amp xs d))
   | "mon_ss_lp" => do
     -- <pool before> <n> <amounts after…> <supply before> <supply after>
     let (p, ts) ← pPool args
